@@ -622,6 +622,12 @@ func checkInitTree(init *mp4.InitSegment, p *initPlan, exp []*expTrack) (string,
 			if a.AVCProfileIndication != e.ps.profile || a.ProfileCompatibility != e.ps.compat || a.AVCLevelIndication != e.ps.level {
 				return "C19-config", fmt.Sprintf("track %d avcC profile/compat/level %d/%d/%d, SPS %d/%d/%d", i+1, a.AVCProfileIndication, a.ProfileCompatibility, a.AVCLevelIndication, e.ps.profile, e.ps.compat, e.ps.level)
 			}
+			if p := a.AVCProfileIndication; p == 100 || p == 110 || p == 122 || p == 144 {
+				// the record carries chroma format and bit depths for these profiles (ISO/IEC 14496-15 5.3.3.1.2)
+				if int(a.ChromaFormat) != e.ps.chroma || int(a.BitDepthLumaMinus1) != e.ps.bdl || int(a.BitDepthChromaMinus1) != e.ps.bdc {
+					return "C19-config", fmt.Sprintf("track %d avcC chroma/bit depths %d/%d/%d, SPS %d/%d/%d", i+1, a.ChromaFormat, a.BitDepthLumaMinus1, a.BitDepthChromaMinus1, e.ps.chroma, e.ps.bdl, e.ps.bdc)
+				}
+			}
 			if e.includePS {
 				if !nalusEq(a.SPSnalus, e.ps.sps) || !nalusEq(a.PPSnalus, e.ps.pps) {
 					return "C19-ps", fmt.Sprintf("track %d avcC parameter sets differ from those supplied", i+1)
